@@ -200,6 +200,8 @@ func (e *Engine) collectWrites(fr *Frame, st *State, fn *ssa.Function, blocks ma
 				} else {
 					e.toolError("loop frame analysis: cannot resolve map in %s", funcKey(fn))
 				}
+			case *ssa.Send:
+				*out = append(*out, writeTarget{ghost: "sends"})
 			case *ssa.Next:
 				if !x.IsString {
 					*out = append(*out, writeTarget{ghost: "rangecount"})
@@ -397,6 +399,9 @@ func (e *Engine) collectCallWrites(fr *Frame, st *State, fn *ssa.Function, ci ss
 
 func (e *Engine) contractWrites(st *State, con *Contract, args []ssa.Value, argVal func(ssa.Value) (Value, bool), out *[]writeTarget) {
 	for _, g := range con.GhostInc {
+		*out = append(*out, writeTarget{ghost: g})
+	}
+	for _, g := range con.GhostIncSite {
 		*out = append(*out, writeTarget{ghost: g})
 	}
 	for g := range con.GhostSet {
